@@ -140,8 +140,19 @@ ViolatedUnsure(P, st, ext) ==
               \cup W(ClearedFresh(st, g), "ClearedFresh") \cup W(ResultsCountOK(P, g), "ResultsCountOK")
   IN UNION {G(ext[i]) : i \in 1..Len(ext)}
 
-Admissible(P, M, MS, st, ext) == Violated(P, M, MS, st, ext) = {}
-StrictlyAdmissible(P, M, MS, st, ext) == Admissible(P, M, MS, st, ext) /\ ViolatedUnsure(P, st, ext) = {}
+\* the same as one conjunction (short-circuit evaluation; Reports_Trace asserts the equivalence on every line)
+GuarOK(P, m, st, ext, g) ==
+  /\ CredCountOK(g) /\ CredSorted(g) /\ CredIndexOK(P, g) /\ SlotNotFuture(st, g) /\ SlotNotTooOld(P, st, g)
+  /\ CredAssigned(P, m, g) /\ CredSigned(P, m, g) /\ CoreFree(P, st, g) /\ Authorized(P, st, g)
+  /\ ServicesExist(st, g) /\ ItemGasOK(st, g) /\ TotalGasOK(P, g) /\ CodeHashOK(st, g) /\ AnchorRecent(st, g)
+  /\ LookupRecent(P, st, g) /\ LookupKnown(st, g) /\ PackageFresh(st, g) /\ DepsCountOK(P, g)
+  /\ DepsKnown(st, ext, g) /\ SegRootsOK(st, ext, g) /\ OutputSizeOK(P, g)
+GuarStrict(P, st, g) == TimedOutFree(P, st, g) /\ LookupNotFuture(st, g) /\ ClearedFresh(st, g) /\ ResultsCountOK(P, g)
+Admissible(P, M, MS, st, ext) ==
+  /\ CoresInRange(P, ext) /\ OrderedByCore(ext) /\ PackagesDistinct(ext)
+  /\ \A i \in 1..Len(ext) : GuarOK(P, MOf(P, M, MS, st, ext[i]), st, ext, ext[i])
+StrictlyAdmissible(P, M, MS, st, ext) ==
+  Admissible(P, M, MS, st, ext) /\ \A i \in 1..Len(ext) : GuarStrict(P, st, ext[i])
 
 \* (11.43) posterior pending reports: the guaranteed cores get their report with the block's slot,
 \* every other core keeps what rho-double-dagger holds
